@@ -1,7 +1,7 @@
 PROPERTY = "C15"
 LEVEL = "proof"
 LEAN_MODULES = ["CifModel.Props.C15"]
-REQUIRED = ["CifModel.C15_skip_depth_balanced_partial", "CifModel.C15_result_nonneg", "CifModel.C15_positive_aborts_local",
+REQUIRED = ["CifModel.C15_skip_depth_balanced", "CifModel.C15_skip_depth_nonneg", "CifModel.C15_skip_depth_cif", "CifModel.C15_result_nonneg", "CifModel.C15_positive_aborts_local",
             "CifModel.C15_loop_start_local", "CifModel.C15_cex_loop_start_pinned", "CifModel.C15_loop_start_code_returned"]
 GEN = ["ErrCodes"]
 FAMILIES = ["pcb"]
@@ -22,9 +22,6 @@ ASSUMPTIONS = [
     "default parse options (max_frame_depth clamps to 1: one level of save frames)",
 ]
 PARTIAL = [
-    "C15_skip_depth_balanced_partial covers parse_value/list/table, parse_item and the packet loop of parse_loop_packets "
-    "(all token sequences, all programs); the parse_loop / parse_container / parse_cif levels (C15_skip_depth_balanced_full) "
-    "are not proved — correspondence only",
     "C15_all_continue_mirror, C15_syntax_only_same_log, C15_skip_semantics, C15_end_ok, C15_positive_aborts are NOT proved as "
     "global theorems (stated as *_full propositions); proved are the local laws C15_positive_aborts_local / "
     "C15_loop_start_local at every handler call site and C15_result_nonneg; the global statements are checked by the "
